@@ -561,6 +561,17 @@ func (w *pw) checkQuiescent() {
 				w.x.Failf("C07/tracks-unknown-eni", "pool tracks %s unknown to the cloud", id)
 			}
 		}
+		// "everything the cloud created on its behalf is either tracked or has been handed back": an interface the pool
+		// decided to give back (slot status Deleting) must really go once the pool is quiescent and the cloud healthy
+		if w.sc.Heal > 0 {
+			for _, st := range w.mgr.Status() {
+				if st.Status == "Deleting" && st.NetworkInterfaceID != "" {
+					if e := w.cloud.ENIs[st.NetworkInterfaceID]; e != nil && !e.Deleted {
+						w.x.Failf("C07/interface-stuck-in-deleting", "after %d healthy balancer rounds the slot of %s is still Deleting and the interface still exists in the cloud: nobody hands it back; %s", 3*w.sc.Heal, st.NetworkInterfaceID, w.hist())
+					}
+				}
+			}
+		}
 	}
 }
 
